@@ -85,7 +85,7 @@ def build_traces(path, tier, seed):
         tol = float(rng.choice([0.3, 1.0, 2.0, 2.5, rng.uniform(0.01, 3)]))
         if rng.integers(4) == 0:
             # records in small / large units (nanometre displacements, counts): the results are scale free
-            sc = 10.0 ** rng.choice([rng.uniform(-12, -6), rng.uniform(3, 8), rng.uniform(155, 250)])
+            sc = 10.0 ** rng.choice([rng.uniform(-12, -6), rng.uniform(3, 8), rng.uniform(155, 250), rng.uniform(-300, -160)])     # (... down to units in which products of neighbours underflow)
             x = x * sc
             tol = tol * sc
         arg = x if tid % 4 else x.tolist()
@@ -177,7 +177,7 @@ def run(tier, seed):
             rep.fail(c, "trace", meta[t])
         if t <= 3:
             rep.sample(meta[t])
-    rep.assumptions = ["exhaustive part: integers {-2..2} and {-3..3}", "trace part: |values| within [1e-100, 1e100] (products of neighbours do not underflow)",
+    rep.assumptions = ["exhaustive part: integers {-2..2} and {-3..3}", "trace part: records in units from 1e-300 to 1e250",
                        "switched peaks: any maximiser of |value| inside an excursion is accepted (relation, not equality)"]
     return rep.finish(checker_cmd="tlc MC_Crossings / Trace_Crossings (harness/drivers/c12.py)",
                       trusted_base=["TLC 1.8", "FP.class", "TableIO.class", "harness/common.py enc"])
